@@ -3,7 +3,9 @@
 
     What is an INPUT of the model (not modelled): reading a path with pydicom and running the meta
     data extractor.  One path contributes one read result [rd]:
-      - [Fault e]            pydicom.dcmread raised (class e),
+      - [Fault e]            pydicom.dcmread raised (class e), or the image test is_image(dcm) raised e (pydicom
+                             decodes the pixel data element lazily): both are handled before the non-image skip,
+      - [ExtractFault attrs e]  a data set was read (pydicom parses lazily) but the extractor raised e,
       - [Data attrs f meta]  a data set was read; [attrs] = which attribute names it has (only the
                              ones [is_image] may ask for matter), [f] = the payload that ends up in
                              the group (the Python triple (dcm, meta, path)), [meta] = meta.get.
@@ -178,7 +180,8 @@ Definition is_image (attrs : list str) : bool := existsb (fun a => mem_str a att
 Section Group.
   Context {F : Type}.
 
-  Inductive rd := Fault (e : err) | Data (attrs : list str) (f : F) (m : meta).
+  Inductive rd := Fault (e : err) | Data (attrs : list str) (f : F) (m : meta)
+                | ExtractFault (attrs : list str) (e : err).
 
   Definition subres := (list gval * list F)%type.          (* (close_list, sub_res) *)
   Definition entry := (list gval * list subres)%type.      (* results[key] *)
@@ -211,6 +214,9 @@ Section Group.
   Definition step (warn : bool) (st : gstate) (r : rd) : res gstate :=
     match r with
     | Fault e => if warn then Ok (fst st, S (snd st)) else Err e
+    | ExtractFault attrs e =>            (* read, then the is_image test, then the extractor *)
+        if negb (is_image attrs) then Ok (fst st, S (snd st))
+        else if warn then Ok (fst st, S (snd st)) else Err e
     | Data attrs f m =>
         if negb (is_image attrs) then Ok (fst st, S (snd st))
         else do rs' <- add_result (ekey group_by close_tests m) (ckey group_by close_tests m) f (fst st);
@@ -325,12 +331,29 @@ Fixpoint imgs {F} (l : list (rd F)) : list (F * meta) :=
   match l with
   | [] => []
   | Fault _ :: r => imgs r
+  | ExtractFault _ _ :: r => imgs r
   | Data attrs f m :: r => if is_image attrs then (f, m) :: imgs r else imgs r
   end.
 
 (** what is skipped with a warning (in warn mode) *)
 Definition skipped {F} (r : rd F) : bool :=
-  match r with Fault _ => true | Data attrs _ _ => negb (is_image attrs) end.
+  match r with Fault _ | ExtractFault _ _ => true | Data attrs _ _ => negb (is_image attrs) end.
+
+(** skipped with a warning in the given mode *)
+Definition skipped_in {F} (warn : bool) (r : rd F) : bool :=
+  match r with
+  | Fault _ => warn
+  | Data attrs _ _ => negb (is_image attrs)
+  | ExtractFault attrs _ => negb (is_image attrs) || warn
+  end.
+
+(** the exception strict mode raises on this entry *)
+Definition strict_error {F} (r : rd F) : option err :=
+  match r with
+  | Fault e => Some e
+  | Data _ _ _ => None
+  | ExtractFault attrs e => if is_image attrs then Some e else None
+  end.
 
 (** [add] built from a function that returns no state on refusal (so it is transactional by construction) *)
 Definition add_of_res {state F} (a : state -> F -> res state) (st : state) (f : F) : state * option err :=
